@@ -348,6 +348,10 @@ def run_e2_once(name, names, body, pre=None, positive=(), expect_raise=None, max
                 break
         if not done:
             unreproduced.append(dict(claim=cname, witness=_jsonable(d["witness"]), detail=d["detail"]))
+            if cname.startswith("outcome:"):
+                # the code raised (or produced a non-finite value) in the model but not on float64 at any of the witnesses: the model
+                # does not follow the code (e.g. a numpy function the shim lacks) - a harness error, never a silent pass
+                harness_errors.append("model/real disagreement: %s in the model (%s) is not reproduced by the float64 code" % (cname, (d["detail"] or "")[-160:].replace("\n", " ")))
     # translator validation: at the sample point of explored paths the real float64 code must agree with
     # every claim the solver discharged on that path (checks shim + stubs + oracle against the implementation)
     validated = 0
